@@ -1625,6 +1625,34 @@ impl VirtualFileSystem for Memfs {
         let dst_root = self._abs(&guard, dst)?;
         let copy_into = self._is_dir(&guard, &dst_root);
 
+        // Validate before changing anything so that a failed move leaves the filesystem untouched
+        let src_entry = match guard.get_entry(&src_root) {
+            Some(x) => x.clone(),
+            None => return Err(PathError::does_not_exist(&src_root).into()),
+        };
+        let dst_final = if copy_into { dst_root.mash(src_root.base()?) } else { dst_root.clone() };
+        if dst_final == src_root {
+            return Ok(());
+        }
+        if dst_final.starts_with(&src_root) {
+            return Err(std::io::Error::new(
+                std::io::ErrorKind::InvalidInput,
+                format!("Cannot move a path into itself: {}", src_root.display()),
+            )
+            .into());
+        }
+        match guard.get_entry(&dst_final.dir()?) {
+            Some(x) if x.is_dir() && !x.is_symlink() => {},
+            Some(_) => return Err(PathError::is_not_dir(dst_final.dir()?).into()),
+            None => return Err(PathError::does_not_exist(dst_final.dir()?).into()),
+        }
+        if let Some(x) = guard.get_entry(&dst_final) {
+            let replace = x.is_file() && !x.is_symlink() && src_entry.is_file() && !src_entry.is_symlink();
+            if !replace {
+                return Err(PathError::exists_already(&dst_final).into());
+            }
+        }
+
         let mut paths = vec![src_root.clone()];
         while let Some(src_path) = paths.pop() {
             let dst_path = if copy_into {
